@@ -33,6 +33,32 @@ func genWCase(t *rapid.T) WCase {
 	return c
 }
 
+// genWCaseAPI: library-only histories; every tampering (which may shrink the directory: remove, truncate, shorter name,
+// an existing file rewritten shorter) is followed by a re-hash half of the time.
+func genWCaseAPI(t *rapid.T) WCase {
+	c := WCase{API: true}
+	n := rapid.IntRange(3, 12).Draw(t, "nops")
+	for i := 0; i < n; i++ {
+		k := rapid.SampledFrom([]string{"writeplan", "writeplan", "checkpoint", "copyfiles", "hash", "rewrite", "tamper", "tamper"}).Draw(t, "kind")
+		if i > 0 && (c.Ops[i-1].Kind == "tamper" || c.Ops[i-1].Kind == "rewrite") && rapid.Bool().Draw(t, "rehash") {
+			k = "hash"
+		}
+		op := WOp{Kind: k,
+			Version: rapid.SampledFrom([]string{"", "1", "2", "10", "20240101000000"}).Draw(t, "version"),
+			Name:    rapid.SampledFrom([]string{"a", "b", "add_t", "x_y"}).Draw(t, "name"),
+			Tag:     rapid.SampledFrom([]string{"", "v1"}).Draw(t, "tag"),
+			File:    rapid.IntRange(0, 5).Draw(t, "file"),
+			Off:     rapid.IntRange(0, 40).Draw(t, "off"),
+			Tamper:  rapid.SampledFrom([]string{"flip", "append", "remove", "add", "truncate", "rename-shorter"}).Draw(t, "tamper"),
+		}
+		for j := rapid.IntRange(0, 3).Draw(t, "nst"); j > 0; j-- {
+			op.Stmts = append(op.Stmts, rapid.SampledFrom(stmtPool).Draw(t, "stmt"))
+		}
+		c.Ops = append(c.Ops, op)
+	}
+	return c
+}
+
 func runWriters(t *testing.T, col *ev.Collector) {
 	check := func(c WCase) error {
 		out, err := checkWriters(c)
@@ -44,6 +70,9 @@ func runWriters(t *testing.T, col *ev.Collector) {
 		}
 		col.Sample("writers/history", c)
 		return err
+	}
+	if !ev.Rapid(t, col, "writers-histories-api", col.N(1500, 100000), genWCaseAPI, check, knownW) {
+		return
 	}
 	ev.Rapid(t, col, "writers-histories", col.N(40, 3000), genWCase, check, knownW)
 }
